@@ -462,7 +462,12 @@ func segmentFMP4MuxParts(
 	var segmentDuration time.Duration
 	breakAtNextMdat := false
 
-	_, err := amp4.ReadBoxStructure(r, func(h *amp4.ReadHandle) (any, error) {
+	fileSize, err := r.Seek(0, io.SeekEnd)
+	if err != nil {
+		return 0, err
+	}
+
+	_, err = amp4.ReadBoxStructure(r, func(h *amp4.ReadHandle) (any, error) {
 		switch h.BoxInfo.Type.String() {
 		case "moof":
 			moofOffset = h.BoxInfo.Offset
@@ -521,6 +526,10 @@ func segmentFMP4MuxParts(
 
 				sampleOffset := dataOffset
 				sampleSize := e.SampleSize
+
+				if int64(sampleSize) > fileSize {
+					return nil, fmt.Errorf("invalid sample size")
+				}
 
 				err = m.writeSample(
 					dts,
